@@ -1,10 +1,10 @@
 package main
 
 import (
-	"go/types"
 	"fmt"
 	"go/constant"
 	"go/token"
+	"go/types"
 	"strings"
 
 	"golang.org/x/tools/go/ssa"
@@ -152,7 +152,7 @@ func propC14(c *Ctx, r *Report) {
 	r.rule("C14/payout-structure", 5, "snapshot, selection, valuation and credit structure of SnapshotPayouts")
 	sp := c.fn("node.Pegnetd.SnapshotPayouts")
 	one := func(name string) ssa.CallInstruction {
-		cs := findCalls(sp, name)
+		cs := c.findCallsFam(sp, name) // in SnapshotPayouts or a stage split off from it
 		if len(cs) != 1 {
 			r.viol("C14/payout-structure", "SnapshotPayouts calls "+name+" once", c.pos(sp.Pos()), fmt.Sprintf("%d call sites", len(cs)))
 			return nil
@@ -168,13 +168,23 @@ func propC14(c *Ctx, r *Report) {
 		return
 	}
 	txp := sp.Params[1]
-	r.check(instrDominates(snapC, selC) && instrDominates(selC, addC), "C14/payout-structure", "SnapshotCurrent -> SelectSnapshotBalances -> credits", c.ipos(snapC), "in dominance order", "the snapshot is not rotated before balances are selected and paid")
-	sameTx := unwrap(snapC.Common().Args[1]) == txp && unwrap(selC.Common().Args[1]) == txp && unwrap(addC.Common().Args[1]) == txp && unwrap(histC.Common().Args[1]) == txp
+	r.check(c.famDominates(sp, snapC, selC) && c.famDominates(sp, selC, addC), "C14/payout-structure", "SnapshotCurrent -> SelectSnapshotBalances -> credits", c.ipos(snapC), "in dominance order", "the snapshot is not rotated before balances are selected and paid")
+	isTx := func(v ssa.Value) bool { return c.rootParamOf(v, sp, 0) == txp }
+	sameTx := isTx(snapC.Common().Args[1]) && isTx(selC.Common().Args[1]) && isTx(addC.Common().Args[1]) && isTx(histC.Common().Args[1])
 	r.check(sameTx, "C14/payout-structure", "snapshot, selection, credits and history on the block's tx", c.ipos(snapC), "", "a snapshot step does not use the block transaction")
 	// cap
 	capOK := false
 	if k, ok := ncsC.Common().Args[0].(*ssa.Const); ok {
 		capOK = constant.Compare(k.Value, token.EQL, constant.MakeUint64(4500*100000000*144))
+	} else if leaves := c.originLeaves(ncsC.Common().Args[0], c.RSync); len(leaves) > 0 {
+		// handed down to a stage split off from SnapshotPayouts: every value that can arrive is that constant
+		capOK = true
+		for _, l := range leaves {
+			k, ok := l.(*ssa.Const)
+			if !ok || k.Value == nil || !constant.Compare(constant.ToInt(k.Value), token.EQL, constant.MakeUint64(4500*100000000*144)) {
+				capOK = false
+			}
+		}
 	}
 	r.check(capOK, "C14/payout-structure", "payout cap is 4,500 PEG x 144", c.ipos(ncsC), "64800000000000", "NewConversionSupply is given "+ncsC.Common().Args[0].String())
 	// credit provenance
@@ -234,7 +244,7 @@ func propC14(c *Ctx, r *Report) {
 		{"zero-rate asset still valued before 2.0.2 (Convert rejects it)", tick["XBT"], cUint(5), cUint(0), cUint(100), v202 - 100, true},
 	} {
 		sc := &Scenario{Params: map[string]AVal{"type:uint32": hconst(cs.h)}, Phis: map[string]AVal{"type:fat2.PTicker": cInt(cs.i)},
-			Paths:   map[string]AVal{"pegnet.BalancesPair.Balances[]": cs.bal},
+			Paths:    map[string]AVal{"pegnet.BalancesPair.Balances[]": cs.bal},
 			MaxDepth: 0, AllErrorsNil: true}
 		// the rates parameter: every entry cs.rate, pUSD cs.usd (a container value, so it follows the map into helpers)
 		sc.Params["type:map[fat2.PTicker]uint64"] = containerOf(cs.rate, map[string]AVal{fmt.Sprintf("%d", tick["USD"]): cs.usd})
